@@ -307,7 +307,7 @@ def main():
 
     # batch self-test
     if len(jobs) >= 20:
-        for key in ("timer_during", "timer_after", "timer_cancelled", "reasks", "solve_calls"):
+        for key in ("timer_during", "timer_after", "timer_cancelled", "reasks", "solve_calls", "api_direct"):
             if tally.get(key, 0) == 0:
                 harness_errors.append("probe counter %s stuck at zero" % key)
         if completed_jobs == 0:
